@@ -447,6 +447,10 @@ def main(argv):
             continue
         failing_lines = {f['line'] for f in r.get('failures', []) if f['kind'] == 'assertion'}
         for line, fn in r['canaries'].items():
+            info = r['em'].functions.get(fn, {})
+            body = '\n'.join(r['lines'][info.get('first_line', 1) - 1:info.get('last_line', 1)])
+            if '@unreachable-by-contract' in body:
+                continue   # the function's precondition is *meant* to be unsatisfiable (documented in the unit)
             if line not in failing_lines:
                 vac.append(f"canary in {short_fn(fn)} verified: contradictory precondition")
 
